@@ -52,6 +52,7 @@ def separate_input_attributes_from_arguments(
     onnx_inputs = []
     onnx_attributes = collections.OrderedDict()
     has_variadic = False
+    omitted_inputs = 0  # optional inputs not supplied so far (they keep their position if a later one is)
 
     for i, param in enumerate(op_signature.params):
         is_input = param.is_param()
@@ -70,9 +71,13 @@ def separate_input_attributes_from_arguments(
                 onnx_attributes[param.name] = args[i]
         elif param.name in kwargs:
             if is_input:
+                onnx_inputs.extend([None] * omitted_inputs)
+                omitted_inputs = 0
                 onnx_inputs.append(kwargs[param.name])
             else:
                 onnx_attributes[param.name] = kwargs[param.name]
+        elif is_input and not param.required:
+            omitted_inputs += 1
         elif isinstance(param, ir.schemas.AttributeParameter) and param.has_default():
             # User did not provide the attribute
             if fill_defaults:
